@@ -100,7 +100,8 @@ func c12tables(c *mon.Ctx) {
 		c12hmtx(k, n, tail, 3+r.IntN(3))
 	})
 	c.Require("hmtx:lsb-from-extents", "hmtx:lsb-given", "hmtx:derived-fields-checked", "hmtx:65535-glyphs",
-		"hmtx:int16-extremes", "hmtx:empty-extents", "hmtx:zero-area-extents")
+		"hmtx:int16-extremes", "hmtx:empty-extents", "hmtx:zero-area-extents",
+		"hmtx:derived-fields-checked:advances-up-to-32767", "hmtx:derived-fields-checked:max-advance>=0x4000", "hmtx:derived-fields-checked:max-advance=32767")
 
 	// ------------------------------------------------------------------
 	// caret slope
@@ -124,7 +125,8 @@ func c12tables(c *mon.Ctx) {
 	for i := 0; i < 64; i++ {
 		c.Require(fmt.Sprintf("os2:codepage-bit-%d", i))
 	}
-	c.Require("os2:perm-install", "os2:perm-edit", "os2:perm-view", "os2:perm-restricted", "os2:heights-zero", "os2:signed-extremes")
+	c.Require("os2:perm-install", "os2:perm-edit", "os2:perm-view", "os2:perm-restricted", "os2:heights-zero", "os2:signed-extremes",
+		"os2:weight-class-outside-1..1000", "os2:width-class-outside-1..9", "os2:class-at-end-of-uint16")
 
 	c.Stratum("t-post", c.N(1500, 150000), func(k *mon.Case) { c12post(k) })
 	c.Require("post:writer-format-1", "post:writer-format-2", "post:writer-format-3", "post:angle-on-grid", "post:angle-off-grid", "post:angle-zero")
@@ -135,9 +137,22 @@ func c12tables(c *mon.Ctx) {
 func c12hmtx(k *mon.Case, n, tail, variant int) {
 	r := k.Rng
 	extreme := variant >= 3 && r.IntN(3) == 0
+	// wide: advances over the whole non-negative half of the 16-bit range (where the
+	// unsigned reading of the file format and the library's signed data model agree)
+	// and extents of up to +-16000: the derived fields are still judged
+	wide := !extreme && r.IntN(4) == 0
 	width := func() funit.Int16 {
 		if extreme {
 			return i16any(r)
+		}
+		if wide {
+			switch r.IntN(6) {
+			case 0:
+				return []funit.Int16{32767, 32766, 16384, 0x4000, 0x7F00, 0x7FFF, 0}[r.IntN(7)]
+			case 1, 2:
+				return funit.Int16(r.IntN(3000))
+			}
+			return funit.Int16(r.IntN(32768))
 		}
 		return funit.Int16(r.IntN(3000))
 	}
@@ -180,6 +195,11 @@ func c12hmtx(k *mon.Case, n, tail, variant int) {
 			x0 := funit.Int16(r.IntN(1200) - 400)
 			y0 := funit.Int16(r.IntN(1200) - 400)
 			info.GlyphExtents[i] = funit.Rect16{LLx: x0, LLy: y0, URx: x0 + funit.Int16(1+r.IntN(1500)), URy: y0 + funit.Int16(1+r.IntN(1500))}
+			if wide && r.IntN(2) == 0 {
+				x0 = funit.Int16(r.IntN(32000) - 16000)
+				y0 = funit.Int16(r.IntN(32000) - 16000)
+				info.GlyphExtents[i] = funit.Rect16{LLx: x0, LLy: y0, URx: x0 + funit.Int16(1+r.IntN(16000)), URy: y0 + funit.Int16(1+r.IntN(16000))}
+			}
 			lsb[i] = x0
 		}
 		derived = !extreme
@@ -282,12 +302,48 @@ func c12hmtx(k *mon.Case, n, tail, variant int) {
 		if hh.AdvanceWidthMax != maxAdv {
 			k.Fail("mismatch", "hhea:advanceWidthMax", "advanceWidthMax %d, maximum of the widths %d", hh.AdvanceWidthMax, maxAdv)
 		}
+		if !first && (minR > 32767 || minR < -32768) {
+			// the smallest right side bearing is not an int16: the field cannot hold the definition's value
+			k.Class("hmtx:min-rsb-outside-int16-not-judged")
+			minR = int(hh.MinRightSideBearing)
+		}
 		if !first && (int(hh.MinLeftSideBearing) != minL || int(hh.MinRightSideBearing) != minR || int(hh.XMaxExtent) != maxExt) {
 			k.Fail("mismatch", "hhea:derived-bearings", "minLSB %d minRSB %d xMaxExtent %d in the bytes, definitions give %d %d %d (over non-empty glyphs)",
 				hh.MinLeftSideBearing, hh.MinRightSideBearing, hh.XMaxExtent, minL, minR, maxExt)
 		}
 		k.Eval()
 		k.Class("hmtx:derived-fields-checked")
+		if wide && !k.Failed() {
+			k.Class("hmtx:derived-fields-checked:advances-up-to-32767")
+			if maxAdv >= 0x4000 {
+				k.Class("hmtx:derived-fields-checked:max-advance>=0x4000")
+			}
+			if maxAdv == 32767 {
+				k.Class("hmtx:derived-fields-checked:max-advance=32767")
+			}
+		}
+	} else if info.Widths != nil {
+		// advances of 0x8000 and more: the file format reads them as unsigned
+		// numbers, the library's data model (funit.Int16) as negative ones; which
+		// maximum the writer stores is recorded, not judged (see the Assumptions of C12 in c12.go)
+		neg := false
+		var maxU uint16
+		maxS := 0
+		for _, w := range info.Widths {
+			neg = neg || w < 0
+			maxU = max(maxU, uint16(w))
+			maxS = max(maxS, int(w))
+		}
+		if neg {
+			switch {
+			case hh.AdvanceWidthMax == maxU:
+				k.Class("hmtx:advance>=0x8000:advanceWidthMax=unsigned-maximum")
+			case int(hh.AdvanceWidthMax) == maxS:
+				k.Class("hmtx:advance>=0x8000:advanceWidthMax=maximum-of-the-non-negative-int16-values")
+			default:
+				k.Class("hmtx:advance>=0x8000:advanceWidthMax=other")
+			}
+		}
 	}
 
 	// the library's decoder
@@ -697,6 +753,25 @@ func c12os2(k *mon.Case) {
 	if r.IntN(4) == 0 {
 		info.WeightClass = []os2.Weight{1, 100, 400, 700, 900, 1000}[r.IntN(6)]
 	}
+	// the classes are 16-bit fields; values outside the ranges the specification
+	// names (weight 1..1000, width 1..9) are in field range and must survive as they are
+	classExtreme := false
+	switch r.IntN(12) {
+	case 0:
+		info.WeightClass = []os2.Weight{0, 1001, 1023, 1024, 32767, 32768, 65534, 65535}[r.IntN(8)]
+		classExtreme = true
+	case 1:
+		info.WeightClass = os2.Weight(r.IntN(0x10000))
+		classExtreme = info.WeightClass == 0 || info.WeightClass > 1000
+	}
+	switch r.IntN(12) {
+	case 0:
+		info.WidthClass = []os2.Width{0, 10, 255, 256, 32767, 32768, 65534, 65535}[r.IntN(8)]
+		classExtreme = true
+	case 1:
+		info.WidthClass = os2.Width(r.IntN(0x10000))
+		classExtreme = classExtreme || info.WidthClass == 0 || info.WidthClass > 9
+	}
 	if r.IntN(8) == 0 {
 		info.LastCharIndex = 0xFFFF
 	}
@@ -837,6 +912,17 @@ func c12os2(k *mon.Case) {
 	for i := 0; i < 64; i++ {
 		if info.CodePageRange&(1<<uint(i)) != 0 {
 			k.Class(fmt.Sprintf("os2:codepage-bit-%d", i))
+		}
+	}
+	if classExtreme && !k.Failed() {
+		if info.WeightClass == 0 || info.WeightClass > 1000 {
+			k.Class("os2:weight-class-outside-1..1000")
+		}
+		if info.WidthClass == 0 || info.WidthClass > 9 {
+			k.Class("os2:width-class-outside-1..9")
+		}
+		if info.WeightClass == 0xFFFF || info.WidthClass == 0xFFFF || info.WeightClass == 0 || info.WidthClass == 0 {
+			k.Class("os2:class-at-end-of-uint16")
 		}
 	}
 	if info.Ascent == 32767 || info.Descent == -32768 || info.LineGap == -32768 || info.AvgGlyphWidth == -32768 || info.StrikeoutPosition == -32768 {
